@@ -34,52 +34,52 @@ Qed.
 
 (* the vector grew at the back / at the front by k fresh bytes *)
 Definition ext_back (st : store) (v : view) (st' : store) (v' : view) (k : Z) : Prop :=
-  wf_view st' v' /\ ids_ok v' /\ exists X, zlen X = k /\ flatT st' v' = flatT st v ++ X.
+  wf_view st' v' /\ (ids_ok v -> ids_ok v') /\ exists X, zlen X = k /\ flatT st' v' = flatT st v ++ X.
 Definition ext_front (st : store) (v : view) (st' : store) (v' : view) (k : Z) : Prop :=
-  wf_view st' v' /\ ids_ok v' /\ exists X, zlen X = k /\ flatT st' v' = X ++ flatT st v.
+  wf_view st' v' /\ (ids_ok v -> ids_ok v') /\ exists X, zlen X = k /\ flatT st' v' = X ++ flatT st v.
 
-Lemma fresh_back st v r : wf_view st v -> ids_ok v -> 0 <= r ->
+Lemma fresh_back st v r : wf_view st v -> 0 <= r ->
   ext_back st v (st ++ [pattern (zlen st) r]) (v ++ [mkiov (zlen st) 0 r]) r.
 Proof.
-  intros W I Hr. pose proof (wf_new_elem st r Hr) as Wn. split; [|split].
+  intros W Hr. pose proof (wf_new_elem st r Hr) as Wn. split; [|split].
   - apply Forall_app; split; [apply wf_view_app; exact W | constructor; [exact Wn|constructor]].
-  - unfold ids_ok in *. rewrite map_app. simpl.
+  - intros I. unfold ids_ok in *. rewrite map_app. simpl.
     apply NoDup_rev in I. rewrite <- (rev_involutive (map iv_id v ++ [zlen st])). apply NoDup_rev.
     rewrite rev_app_distr. simpl. constructor; [|exact I]. rewrite <- in_rev. intros HI. apply in_map_iff in HI.
     destruct HI as (y & Ey & Hy). eapply Forall_forall in W; [|exact Hy]. pose proof (wf_elem_id_lt _ _ W). lia.
   - eexists; split; [|rewrite flatT_app, (flatT_app_store st _ _ W), flatT_single; reflexivity]. apply (zlen_bytesT _ _ Wn).
 Qed.
-Lemma fresh_front st v r : wf_view st v -> ids_ok v -> 0 <= r ->
+Lemma fresh_front st v r : wf_view st v -> 0 <= r ->
   ext_front st v (st ++ [pattern (zlen st) r]) (mkiov (zlen st) 0 r :: v) r.
 Proof.
-  intros W I Hr. pose proof (wf_new_elem st r Hr) as Wn. split; [|split].
+  intros W Hr. pose proof (wf_new_elem st r Hr) as Wn. split; [|split].
   - constructor; [exact Wn | apply wf_view_app; exact W].
-  - unfold ids_ok in *. simpl. constructor; [|exact I]. intros HI. apply in_map_iff in HI.
+  - intros I. unfold ids_ok in *. simpl. constructor; [|exact I]. intros HI. apply in_map_iff in HI.
     destruct HI as (y & Ey & Hy). eapply Forall_forall in W; [|exact Hy]. pose proof (wf_elem_id_lt _ _ W). lia.
   - eexists; split; [|rewrite flatT_cons, (flatT_app_store st _ _ W); reflexivity]. apply (zlen_bytesT _ _ Wn).
 Qed.
-Lemma ext_back_refl st v : wf_view st v -> ids_ok v -> ext_back st v st v 0.
+Lemma ext_back_refl st v : wf_view st v -> ext_back st v st v 0.
 Proof. intros; split; [|split]; auto. exists []. rewrite app_nil_r. auto. Qed.
-Lemma ext_front_refl st v : wf_view st v -> ids_ok v -> ext_front st v st v 0.
+Lemma ext_front_refl st v : wf_view st v -> ext_front st v st v 0.
 Proof. intros; split; [|split]; auto. exists []. auto. Qed.
 Lemma ext_back_trans st v st1 v1 st2 v2 a b : ext_back st v st1 v1 a -> ext_back st1 v1 st2 v2 b -> ext_back st v st2 v2 (a + b).
 Proof.
-  intros (_ & _ & X & LX & FX) (W & I & Y & LY & FY). split; [|split]; auto.
+  intros (_ & I1 & X & LX & FX) (W & I & Y & LY & FY). split; [|split]; auto.
   exists (X ++ Y). rewrite zlen_app, FY, FX, app_assoc. split; [lia|reflexivity].
 Qed.
 Lemma ext_front_trans st v st1 v1 st2 v2 a b : ext_front st v st1 v1 a -> ext_front st1 v1 st2 v2 b -> ext_front st v st2 v2 (a + b).
 Proof.
-  intros (_ & _ & X & LX & FX) (W & I & Y & LY & FY). split; [|split]; auto.
+  intros (_ & I1 & X & LX & FX) (W & I & Y & LY & FY). split; [|split]; auto.
   exists (Y ++ X). rewrite zlen_app, FY, FX, app_assoc. split; [lia|reflexivity].
 Qed.
 
 (* iovector.cpp:357-374 push_back_more *)
 Lemma push_back_more_spec chunk : forall fuel st iv bytes0 bytes,
-  wf_view st (live iv) -> ids_ok (live iv) -> 0 <= bytes -> (Z.to_nat (cap iv - iend iv) < fuel)%nat ->
+  wf_view st (live iv) -> 0 <= bytes -> (Z.to_nat (cap iv - iend iv) < fuel)%nat ->
   exists st' iv' k, push_back_more fuel chunk st iv bytes0 bytes = Some (st', iv', bytes0 - bytes + k) /\
     0 <= k <= bytes /\ ext_back st (live iv) st' (live iv') k /\ ibeg iv' = ibeg iv /\ cap iv' = cap iv.
 Proof.
-  induction fuel as [|f IH]; intros st iv bytes0 bytes W I Hb Hf; [lia|]. simpl.
+  induction fuel as [|f IH]; intros st iv bytes0 bytes W Hb Hf; [lia|]. simpl.
   destruct (bytes =? 0) eqn:Z0.
   { exists st, iv, 0. rewrite Z.add_0_r. repeat split; auto; try lia; apply ext_back_refl; auto. }
   destruct (cap iv <=? iend iv) eqn:C.
@@ -92,22 +92,22 @@ Proof.
     unfold o_push_back. assert (IE : iend iv1 = iend iv) by (unfold iend; rewrite C2, C3; reflexivity).
     rewrite IE, C1. destruct (iend iv <? cap iv) eqn:C'; [|apply Z.ltb_ge in C'; lia].
     set (iv2 := mkIV (cap iv) (ibeg iv1) (live iv1 ++ [mkiov (zlen st) 0 r]) (nbases iv1)).
-    pose proof (fresh_back st (live iv) r W I ltac:(lia)) as EB. rewrite <- C3 in EB at 2.
+    pose proof (fresh_back st (live iv) r W ltac:(lia)) as EB. rewrite <- C3 in EB at 2.
     destruct EB as (W2 & I2 & X2).
     assert (Hf2 : (Z.to_nat (cap iv2 - iend iv2) < f)%nat).
     { unfold iend, iv2; simpl. rewrite zlen_app, C2, C3. unfold iend in *. unfold zlen at 2. simpl. lia. }
-    destruct (IH (st ++ [pattern (zlen st) r]) iv2 bytes0 (bytes - r) W2 I2 ltac:(lia) Hf2) as (st' & iv' & k & E & Hk & EB' & B' & CC').
+    destruct (IH (st ++ [pattern (zlen st) r]) iv2 bytes0 (bytes - r) W2 ltac:(lia) Hf2) as (st' & iv' & k & E & Hk & EB' & B' & CC').
     exists st', iv', (r + k). rewrite E. split; [f_equal; f_equal; lia|]. split; [lia|].
     split; [|split; [rewrite B'; simpl; exact C2 | rewrite CC'; reflexivity]].
     eapply ext_back_trans; [|exact EB']. split; [exact W2|split; [exact I2|]]. simpl. exact X2.
 Qed.
 
 Lemma push_front_more_spec chunk : forall fuel st iv bytes0 bytes,
-  wf_view st (live iv) -> ids_ok (live iv) -> 0 <= bytes -> (Z.to_nat (ibeg iv) < fuel)%nat ->
+  wf_view st (live iv) -> 0 <= bytes -> (Z.to_nat (ibeg iv) < fuel)%nat ->
   exists st' iv' k, push_front_more fuel chunk st iv bytes0 bytes = Some (st', iv', bytes0 - bytes + k) /\
     0 <= k <= bytes /\ ext_front st (live iv) st' (live iv') k.
 Proof.
-  induction fuel as [|f IH]; intros st iv bytes0 bytes W I Hb Hf; [lia|]. simpl.
+  induction fuel as [|f IH]; intros st iv bytes0 bytes W Hb Hf; [lia|]. simpl.
   destruct (bytes =? 0) eqn:Z0.
   { exists st, iv, 0. rewrite Z.add_0_r. repeat split; auto; try lia; apply ext_front_refl; auto. }
   destruct (ibeg iv <=? 0) eqn:C.
@@ -119,20 +119,20 @@ Proof.
   - cbn [iv_len]. destruct (r =? 0) eqn:R0; [apply Z.eqb_eq in R0; lia|].
     unfold o_push_front. rewrite C2. destruct (0 <? ibeg iv) eqn:C'; [|apply Z.ltb_ge in C'; lia].
     set (iv2 := mkIV (cap iv1) (ibeg iv - 1) (mkiov (zlen st) 0 r :: live iv1) (nbases iv1)).
-    pose proof (fresh_front st (live iv) r W I ltac:(lia)) as EB. rewrite <- C3 in EB at 2.
+    pose proof (fresh_front st (live iv) r W ltac:(lia)) as EB. rewrite <- C3 in EB at 2.
     destruct EB as (W2 & I2 & X2).
     assert (Hf2 : (Z.to_nat (ibeg iv2) < f)%nat) by (unfold iv2; simpl; lia).
-    destruct (IH (st ++ [pattern (zlen st) r]) iv2 bytes0 (bytes - r) W2 I2 ltac:(lia) Hf2) as (st' & iv' & k & E & Hk & EB').
+    destruct (IH (st ++ [pattern (zlen st) r]) iv2 bytes0 (bytes - r) W2 ltac:(lia) Hf2) as (st' & iv' & k & E & Hk & EB').
     exists st', iv', (r + k). rewrite E. split; [f_equal; f_equal; lia|]. split; [lia|].
     eapply ext_front_trans; [|exact EB']. split; [exact W2|split; [exact I2|]]. simpl. exact X2.
 Qed.
 
 (* iovector.h:389-397 push_back(size_t bytes) *)
-Lemma o_push_back_alloc_spec chunk st iv bytes : wf_view st (live iv) -> ids_ok (live iv) -> 0 <= bytes ->
+Lemma o_push_back_alloc_spec chunk st iv bytes : wf_view st (live iv) -> 0 <= bytes ->
   exists st' iv' k, o_push_back_alloc chunk st iv bytes = Some (st', iv', k) /\ 0 <= k <= bytes /\
     ext_back st (live iv) st' (live iv') k.
 Proof.
-  intros W I Hb. unfold o_push_back_alloc.
+  intros W Hb. unfold o_push_back_alloc.
   destruct (cap iv <=? iend iv) eqn:C.
   { exists st, iv, 0. repeat split; auto; try lia; apply ext_back_refl; auto. }
   apply Z.leb_gt in C.
@@ -143,23 +143,23 @@ Proof.
     unfold o_push_back. assert (IE : iend iv1 = iend iv) by (unfold iend; rewrite C2, C3; reflexivity).
     rewrite IE, C1. destruct (iend iv <? cap iv) eqn:C'; [|apply Z.ltb_ge in C'; lia].
     set (iv2 := mkIV (cap iv) (ibeg iv1) (live iv1 ++ [mkiov (zlen st) 0 r]) (nbases iv1)).
-    pose proof (fresh_back st (live iv) r W I ltac:(lia)) as EB. rewrite <- C3 in EB at 2.
+    pose proof (fresh_back st (live iv) r W ltac:(lia)) as EB. rewrite <- C3 in EB at 2.
     cbn [iv_len]. destruct (r =? bytes) eqn:RB.
     + apply Z.eqb_eq in RB. subst r. exists (st ++ [pattern (zlen st) bytes]), iv2, bytes. split; [reflexivity|]. split; [lia|]. exact EB.
     + destruct EB as (W2 & I2 & X2).
       assert (Hf2 : (Z.to_nat (cap iv2 - iend iv2) < back_fuel iv2)%nat) by (unfold back_fuel; lia).
-      destruct (push_back_more_spec chunk (back_fuel iv2) (st ++ [pattern (zlen st) r]) iv2 (bytes - r) (bytes - r) W2 I2 ltac:(lia) Hf2)
+      destruct (push_back_more_spec chunk (back_fuel iv2) (st ++ [pattern (zlen st) r]) iv2 (bytes - r) (bytes - r) W2 ltac:(lia) Hf2)
         as (st' & iv' & k & E & Hk & EB' & _).
       rewrite E. exists st', iv', (r + k). split; [f_equal; f_equal; lia|]. split; [lia|].
       eapply ext_back_trans; [|exact EB']. split; [exact W2|split; [exact I2|]]. simpl. exact X2.
 Qed.
 
 (* iovector.h:363-371 push_front(size_t bytes) *)
-Lemma o_push_front_alloc_spec chunk st iv bytes : wf_view st (live iv) -> ids_ok (live iv) -> 0 <= bytes ->
+Lemma o_push_front_alloc_spec chunk st iv bytes : wf_view st (live iv) -> 0 <= bytes ->
   exists st' iv' k, o_push_front_alloc chunk st iv bytes = Some (st', iv', k) /\ 0 <= k <= bytes /\
     ext_front st (live iv) st' (live iv') k.
 Proof.
-  intros W I Hb. unfold o_push_front_alloc.
+  intros W Hb. unfold o_push_front_alloc.
   destruct (ibeg iv <=? 0) eqn:C.
   { exists st, iv, 0. repeat split; auto; try lia; apply ext_front_refl; auto. }
   apply Z.leb_gt in C.
@@ -169,12 +169,12 @@ Proof.
   - cbn [iv_len]. destruct (r =? 0) eqn:R0; [apply Z.eqb_eq in R0; lia|].
     unfold o_push_front. rewrite C2. destruct (0 <? ibeg iv) eqn:C'; [|apply Z.ltb_ge in C'; lia].
     set (iv2 := mkIV (cap iv1) (ibeg iv - 1) (mkiov (zlen st) 0 r :: live iv1) (nbases iv1)).
-    pose proof (fresh_front st (live iv) r W I ltac:(lia)) as EB. rewrite <- C3 in EB at 2.
+    pose proof (fresh_front st (live iv) r W ltac:(lia)) as EB. rewrite <- C3 in EB at 2.
     cbn [iv_len]. destruct (r =? bytes) eqn:RB.
     + apply Z.eqb_eq in RB. subst r. exists (st ++ [pattern (zlen st) bytes]), iv2, bytes. split; [reflexivity|]. split; [lia|]. exact EB.
     + destruct EB as (W2 & I2 & X2).
       assert (Hf2 : (Z.to_nat (ibeg iv2) < front_fuel iv2)%nat) by (unfold front_fuel; lia).
-      destruct (push_front_more_spec chunk (front_fuel iv2) (st ++ [pattern (zlen st) r]) iv2 (bytes - r) (bytes - r) W2 I2 ltac:(lia) Hf2)
+      destruct (push_front_more_spec chunk (front_fuel iv2) (st ++ [pattern (zlen st) r]) iv2 (bytes - r) (bytes - r) W2 ltac:(lia) Hf2)
         as (st' & iv' & k & E & Hk & EB').
       rewrite E. exists st', iv', (r + k). split; [f_equal; f_equal; lia|]. split; [lia|].
       eapply ext_front_trans; [|exact EB']. split; [exact W2|split; [exact I2|]]. simpl. exact X2.
